@@ -74,6 +74,102 @@ CLAIMED = {
         technique=TECH + "data-structure-against-abstract-view contracts over an itertools library model; bounded exhaustive chains",
         note=TRUST + "itertools.islice is modelled eagerly (equal to the lazy one only under iterator ownership); the bounded part covers the lazy orders.",
     ),
+    "C06": dict(
+        category="proof",
+        text="Exceptional postconditions `raises subset-of family` proved on every path of compare (all operators, arbitrary operands), every selector resolve, the standard function calls, JSONPointer._index/_getitem, "
+        "JSONPatch.apply's error translation (abstract operations raising anything of the pointer/patch families) and the exceptions' __str__. Lexer/parser, text decoders and termination of compilation are bounded (monitors/c06.py fuzz under a 2 s alarm).",
+        ref="5/C06",
+        technique=TECH + "exceptional postconditions over library raise-conditions; bounded token-soup / single-edit fuzzing for the parser and decoders",
+        note=TRUST + "re is opaque; the raise-conditions of builtins are the library model's; termination is proved only for the evaluator's loops (foreach over finite sequences), not for compilation.",
+    ),
+    "C07": dict(
+        category="proof",
+        text="Integer range checks of index and slice selectors proved for symbolic limits (all configurations at once); singular-query classification proved against the RFC definition over the selector-class enumeration. "
+        "Acceptance of every well-typed query and rejection of every ill-typed one (one broken rule at every logical position) are bounded (monitors/c07.py).",
+        ref="5/C07",
+        technique=TECH + "proof by cases over the finite selector class hierarchy; bounded well-typed / ill-typed expression universes for the parser",
+        note=TRUST + "The function-typing decision functions (check_well_typedness) are covered by the bounded part only.",
+    ),
+    "C09": dict(
+        category="proof",
+        text="Write frames proved for every selector resolve / resolve_async and Filter.resolve (no store into DOC / CTX / QUERY objects); for fixed expression-tree shapes with abstract leaves cache_tree() is proved to leave the compiled tree untouched "
+        "and the caching copy to evaluate like the plain expression on two candidates of one resolution (2-safety with the volatility contract). Interleavings, threads, repeated use and caching on/off are cross-checked bounded (monitors/c09.py).",
+        ref="5/C09",
+        technique=TECH + "frame (modifies) postconditions from origin-tagged heap objects; relational cached-vs-plain evaluation; bounded schedule enumeration",
+        note=TRUST + "Tree shapes are a fixed list (bounded in shape, unbounded in the leaves); thread schedules are not explored: the claim is that no shared object is written.",
+    ),
+    "C10": dict(
+        category="other",
+        text="The closing step of this property is a round trip through the lexer and parser, which no contract in reach decides: the deciding check is the bounded round trip (monitors/c10.py: str -> compile -> fixed point -> same matches on the document universe).",
+        ref="5/C10",
+        technique="bounded round-trip enumeration (stand-in: the printer/parser pair is outside the VC generator's reach)",
+        note="Bounded only; labelled so in evidence. " + TRUST,
+    ),
+    "C11": dict(
+        category="proof",
+        text="JSONPath.finditer proved equal to the fold of resolve over the segments from the root node (fake root, filter context default, load_data); findall == values(finditer), match == first(finditer); the environment-level forms proved to delegate to compile().method with the same arguments. "
+        "Compound union/intersection semantics, Query and text/file inputs are bounded (monitors/c11.py).",
+        ref="5/C11",
+        technique=TECH + "fold rule for the segment pipeline, modular finditer contract; bounded differential run of all entry points",
+        note=TRUST + "json.loads is a library contract; compound paths (generator closures) are covered by the bounded part only.",
+    ),
+    "C13": dict(
+        category="proof",
+        text="Evaluation-side extensions proved: keys selector, fake root in finditer, current key, filter-context path and its propagation into nested queries, in / contains / =~ / <> in compare, undefined/nil comparisons. "
+        "That every alias spelling lexes and parses to the standard tree in every position is bounded (monitors/c13.py).",
+        ref="5/C13",
+        technique=TECH + "bounded alias-form / standard-form pairs for the lexer and parser",
+        note=TRUST,
+    ),
+    "C14": dict(
+        category="proof",
+        text="Token-level operations proved: _index, __eq__ (== equality of string tokens), parent, is_relative_to, from_match. The text laws (parse/print round trip, from_parts spelling, join / slash navigation) are bounded exhaustively over short token sequences (monitors/c14.py).",
+        ref="5/C14",
+        technique=TECH + "exhaustive bounded enumeration of token sequences for the string laws (str.replace / split round trips need induction no solver here does)",
+        note=TRUST + "_encode/_parse are uninterpreted in the proofs.",
+    ),
+    "C15": dict(
+        category="proof",
+        text="addne / addap proved against their documented difference from add on the parent container (same heap model as C05). Construction routes, printed forms, reuse and independence of results are bounded (monitors/c15.py).",
+        ref="5/C15",
+        technique=TECH + "bounded differential check of construction routes and repeated application",
+        note=TRUST + "_build dispatch and value ownership are covered by the bounded part.",
+    ),
+    "C16": dict(
+        category="proof",
+        text="RelativeJSONPointer.to() proved against the draft's evaluation (steps, offset on a final array index, suffix / key marker, the three refusals) for int index tokens; string index tokens in the thorough tier. Grammar, printing and both entry points are bounded exactly over the statement's quantifier (monitors/c16.py).",
+        ref="5/C16",
+        technique=TECH + "bounded exhaustive base x steps x offset x suffix universe for the grammar",
+        note=TRUST + "from_parts is uninterpreted; an offset applied to a non-index token is left unconstrained (the statement only fixes final array indices).",
+    ),
+    "C17": dict(
+        category="other",
+        text="Meaning under renamed identifier tokens is decided by lexing under the renamed configuration, outside the VC generator's reach: bounded over configurations with prefix-related spellings x templates x documents, incl. the string-form round trip (monitors/c17.py).",
+        ref="5/C17",
+        technique="bounded configuration enumeration (stand-in: regex lexer construction is outside the VC generator's reach)",
+        note="Bounded only; labelled so in evidence. " + TRUST,
+    ),
+    "C18": dict(
+        category="other",
+        text="End-to-end check of the three sub-commands in-process and through real subprocesses over the option matrix against the library calls (monitors/c18.py).",
+        ref="5/C18",
+        technique="bounded option-matrix enumeration (stand-in: argparse / file objects are outside the VC generator's reach)",
+        note="Bounded only; labelled so in evidence. " + TRUST,
+    ),
+    "C19": dict(
+        category="other",
+        text="Projection against an independent reference built from the relative matches, three styles, overlapping and out-of-order selections, document unchanged (monitors/c19.py).",
+        ref="5/C19",
+        technique="bounded differential check against a reference projection (contracts for _patch_obj / _fix_sparse_arrays not yet discharged)",
+        note="Bounded only; labelled so in evidence. " + TRUST,
+    ),
+    "C20": dict(
+        category="proof",
+        text="Composition over proved contracts: every selector produces well-located matches with exact-typed parts (C01/C03), from_match reuses the parts, _getitem/resolve_parent resolve them without conversion, and test/replace/remove are proved on the parent container (C05). The end-to-end composition is cross-checked bounded (monitors/c20.py).",
+        ref="5/C20",
+        technique=TECH + "lemma over the selector, pointer and patch contracts; bounded end-to-end differential check",
+        note=TRUST + "The whole-document lifting assumption of C05 applies.",
+    ),
 }
 
 NOT_YET = {}
